@@ -893,14 +893,16 @@ theorem presOk_tableInsert (a : Nat) (k v : Val) : PresOk Bal (tableInsert a k v
         rw [hg] at h; simp at h⟩
 
 /-- the callback pops exactly the `n` arguments the native pushed for it, and restores the call
-    stack (when it returns) -/
+    stack (when it returns); when arguments were pushed (`0 < n`) the entry stack is known not to
+    be over-full -/
 def Balanced (re : Reenter) (f : Val) (n : Nat) : Prop :=
-  ∀ s r s', n ≤ s.stack.count → s.stack.count < s.stack.data.length → (re f).go s = (.ok r, s') →
+  ∀ s r s', n ≤ s.stack.count → (0 < n → s.stack.count < s.stack.data.length) →
+    (re f).go s = (.ok r, s') →
     Prefix s'.stack s.stack ∧ s'.stack.count + n = s.stack.count ∧ s'.frames = s.frames
 
 theorem PureCallback.balanced {re : Reenter} {f : Val} {φ : Val → Val → Val}
     (h : PureCallback re f φ) : Balanced re f 2 := fun s r s' hc hl hok => by
-  obtain ⟨-, h1, h2, -, -, h3, -, -⟩ := h.ok s r s' hc hl hok
+  obtain ⟨-, h1, h2, -, -, h3, -, -⟩ := h.ok s r s' hc (hl (by omega)) hok
   exact ⟨h1, h2, h3⟩
 
 /-- push the value, push the key, call back: balanced as a whole -/
@@ -915,7 +917,7 @@ theorem presOk_callKV {re : Reenter} {f : Val} (hb : Balanced re f 2) (k v : Val
     dsimp only at hc2 hok
     rw [List.length_set] at hc2
     obtain ⟨hpre, hcnt, hfr⟩ := hb _ r t' (by dsimp only; omega)
-      (by dsimp only; rw [List.length_set, List.length_set]; omega) hok
+      (fun _ => by dsimp only; rw [List.length_set, List.length_set]; omega) hok
     dsimp only at hpre hcnt hfr
     exact ⟨StackSame.of_prefix ((Prefix.push t.stack v).trans (Prefix.push _ k)) hpre (by omega), hfr⟩⟩
 
@@ -926,8 +928,26 @@ theorem presOk_call1 {re : Reenter} {f : Val} (hb : Balanced re f 1) (x : Val) :
     obtain ⟨_, t₁, h1, hok⟩ := ok_bind hok
     obtain ⟨hc1, rfl⟩ := push_ok h1
     obtain ⟨hpre, hcnt, hfr⟩ := hb _ r t' (by dsimp only; omega)
-      (by dsimp only; rw [List.length_set]; omega) hok
+      (fun _ => by dsimp only; rw [List.length_set]; omega) hok
     dsimp only at hpre hcnt hfr
     exact ⟨StackSame.of_prefix (Prefix.push t.stack x) hpre (by omega), hfr⟩⟩
+
+
+/-- `pop`: the stack cut down by its top slot (nothing on an empty stack) -/
+theorem pop_facts (st : VStack Val) :
+    Prefix st.pop.1 st ∧ st.pop.1.count = st.count - 1 ∧ st.pop.2 = st.peekLast 0 := by
+  unfold VStack.pop VStack.peekLast
+  by_cases hc : st.count = 0
+  · rw [if_pos hc, if_neg (by omega)]
+    exact ⟨Prefix.refl st, by show st.count = st.count - 1; omega, rfl⟩
+  · rw [if_neg hc, if_pos (by omega)]
+    refine ⟨⟨by dsimp only; omega, by simp, fun i hi => ?_⟩, rfl, rfl⟩
+    dsimp only at hi ⊢
+    rw [List.getElem?_set]
+    have : ¬ st.count - 1 = i := by omega
+    simp only [this, if_false]
+
+theorem Prefix.of_stackSame {a b : VStack Val} (h : StackSame a b) : Prefix b a :=
+  ⟨Nat.le_of_eq h.count, h.cap, fun i hi => h.slots i (by rw [← h.count]; exact hi)⟩
 
 end Cao.Native
